@@ -617,6 +617,25 @@ def h_traj_outputs(case):
     counts["output_independence_checks"] = len(outs) + 1
     if np.array(traj.data.value).tobytes() != before:
         bad.append({"what": "editing what an accessor returned changed the trajectory's data", **ctx})
+    # a trajectory that carries its script (as the engines build it: the system it is given IS the script's system): the stored script is
+    # then re-used for a follow-up model - its system gets another network / state - while the trajectory is still being read
+    if cgmap is None:
+        scr = st.RDScript(system, t_sample=[float(i) for i in range(N)], time_step=0.5)
+        tj = st.RDTrajectory(st.UnitArray(data.copy(), unit), st.UnitArray([float(i) for i in range(N)], "s"), system=scr.system, script=scr)
+        snap = [np.array(tj.get_state(None, k_).value).tobytes() for k_ in range(N)] + [np.array(tj.system.state.value).tobytes()]
+        dims0 = (tj.nsamples(), tj.nspecies(), tj.ncells())
+        other = st.RDNetwork([st.Species("Q"), st.Species("R"), st.Species("S"), st.Species("T")], [])
+        tj.script.system.state = [7.0] * (S * C)
+        tj.script.system.network = other if r.random() < 0.5 else tj.script.system.network
+        counts["stored_script_edit_checks"] = 1
+        try:
+            now = [np.array(tj.get_state(None, k_).value).tobytes() for k_ in range(N)] + [np.array(tj.system.state.value).tobytes()]
+            dims1 = (tj.nsamples(), tj.nspecies(), tj.ncells())
+            if now != snap or dims1 != dims0:
+                bad.append({"what": "editing the system of the script stored in a trajectory changed what the trajectory (or its own system) returns",
+                            "dims_before": list(dims0), "dims_after": list(dims1), **ctx})
+        except Exception as e:
+            bad.append({"what": "after editing the system of the script stored in a trajectory the accessors raise", "error": "%s: %s" % (type(e).__name__, e), **ctx})
     return {"bad": bad[:2], "counts": counts, "key": chash([N, S, C, cgmap, unit, idx]), "nontrivial": S * C * N >= 2, "sample": None}
 
 
